@@ -204,6 +204,11 @@ def run(ctx):
                                'PoolError::Timeout is built without the semaphore having been consulted: on a closed pool this call answers Timeout where Closed is owed' if not ok else '',
                                construct='timeout-without-semaphore:' + b.name)
     ctx.floor('R12.3', 'constructions of PoolError::Timeout examined', n_to, 3)
+    # ---- R12.5 which primitive each (timeout, runtime) combination reaches: a zero timeout never touches the timer (which
+    # panics outside a runtime context), a non-zero one without runtime is a reported error (table shared with C10)
+    from .rules_C10 import unmanaged_timeout_table
+    unmanaged_timeout_table(ctx, 'R12.5')
+
     ctx.not_decided += ['that tokio wakes all waiters on close() (trusted)', 'user Drop of T runs under the queue lock inside clear() (noted, outside the property)']
     ctx.assumptions += ['a std Vec never holds more than isize::MAX elements', 'tokio Semaphore::close semantics']
 
